@@ -32,35 +32,63 @@ def generate(L):
         raise L.GenError("notes_path_for_object: unrecognised shape")
     split = int(m.group(1))
 
+    DEEP = (r'for deep_path in deep_fanout_note_paths_for_object\(commit_sha\) \{ '
+            r'script\.extend_from_slice\(format!\("D \{\}\\n", deep_path\)\.as_bytes\(\)\); \} ')
+
     def batch_shape(name, m_re):
+        """-> True when the deeper fan-out forms are deleted as well"""
         b = _norm(L.find_fn(src, name, rel))
         if "let fanout_path = notes_path_for_object(commit_sha);" not in b or "let flat_path = commit_sha.clone();" not in b:
             raise L.GenError(f"{name}: flat/fanout path bindings not found")
         loop = b[b.index("let fanout_path = notes_path_for_object(commit_sha);"):]
-        want = (r'if flat_path != fanout_path \{ script\.extend_from_slice\(format!\("D \{\}\\n", flat_path\)\.as_bytes\(\)\); \} '
-                r'script\.extend_from_slice\(format!\("D \{\}\\n", fanout_path\)\.as_bytes\(\)\); '
-                + m_re)
-        if not re.search(want, loop):
+        head = (r'if flat_path != fanout_path \{ script\.extend_from_slice\(format!\("D \{\}\\n", flat_path\)\.as_bytes\(\)\); \} '
+                r'script\.extend_from_slice\(format!\("D \{\}\\n", fanout_path\)\.as_bytes\(\)\); ')
+        if re.search(head + DEEP + m_re, loop):
+            deep, ncmd = True, 4
+        elif re.search(head + m_re, loop):
+            deep, ncmd = False, 3
+        else:
             raise L.GenError(f"{name}: the D/D/M command sequence changed")
-        if len(re.findall(r'format!\("[DMNCR] ', b)) != 3:
+        if len(re.findall(r'format!\("[DMNCR] ', b)) != ncmd:
             raise L.GenError(f"{name}: unexpected number of fast-import file commands")
         if "entries.iter().rev()" not in b or "seen.insert(commit_sha.as_str())" not in b or "deduped_entries.reverse();" not in b:
             raise L.GenError(f"{name}: deduplication (last entry wins) changed")
         if 'script.extend_from_slice(b"commit refs/notes/ai\\n");' not in b or 'format!("from {}\\n", existing_tip)' not in b:
             raise L.GenError(f"{name}: commit header changed")
+        return deep
 
-    batch_shape("notes_add_batch",
-                r'script\.extend_from_slice\(format!\("M 100644 :\{\} \{\}\\n", idx \+ 1, fanout_path\)\.as_bytes\(\)\);')
-    batch_shape("notes_add_blob_batch",
-                r'script\.extend_from_slice\(format!\("M 100644 \{\} \{\}\\n", blob_oid, fanout_path\)\.as_bytes\(\)\);')
+    w1 = batch_shape("notes_add_batch",
+                     r'script\.extend_from_slice\(format!\("M 100644 :\{\} \{\}\\n", idx \+ 1, fanout_path\)\.as_bytes\(\)\);')
+    w2 = batch_shape("notes_add_blob_batch",
+                     r'script\.extend_from_slice\(format!\("M 100644 \{\} \{\}\\n", blob_oid, fanout_path\)\.as_bytes\(\)\);')
 
     lk = _norm(L.find_fn(src, "note_blob_oids_for_commits", rel))
     i1 = lk.find("stdin_data.push_str(&flat_note_pathspec_for_commit(commit_sha));")
     i2 = lk.find("stdin_data.push_str(&fanout_note_pathspec_for_commit(commit_sha));")
     if not (0 <= i1 < i2):
         raise L.GenError("note_blob_oids_for_commits: flat-then-fanout query order changed")
-    if "parse_batch_check_blob_oid(flat_line) .or_else(|| parse_batch_check_blob_oid(fanout_line))" not in lk:
-        raise L.GenError("note_blob_oids_for_commits: flat.or_else(fanout) changed")
+    if "parse_batch_check_blob_oid(flat_line) .or_else(|| parse_batch_check_blob_oid(fanout_line))" in lk \
+            and "deep_fanout_note_paths_for_object" not in lk:
+        r_deep = False
+    elif ('let deep_paths = deep_fanout_note_paths_for_object(commit_sha); for deep_path in &deep_paths { '
+          'stdin_data.push_str("refs/notes/ai:"); stdin_data.push_str(deep_path); stdin_data.push(\'\\n\'); } '
+          'queries_per_commit.push(2 + deep_paths.len());') in lk and lk.find("deep_fanout_note_paths_for_object") > i2 \
+            and ("for _ in 0..queries { let Some(line) = lines.next() else { break; }; if note_blob_oid.is_none() { "
+                 "note_blob_oid = parse_batch_check_blob_oid(line); } }") in lk:
+        r_deep = True
+    else:
+        raise L.GenError("note_blob_oids_for_commits: neither the two-layout nor the all-layouts shape")
+    if len({w1, w2, r_deep}) != 1:
+        raise L.GenError(f"writers and reader disagree about the deeper fan-out forms: {w1} {w2} {r_deep}")
+    all_layouts = r_deep
+    if all_layouts:
+        dp = _norm(L.find_fn(src, "deep_fanout_note_paths_for_object", rel))
+        want = ("let mut paths = Vec::new(); let mut dirs = 2; while oid.len() > dirs * 2 { "
+                "let mut path = String::with_capacity(oid.len() + dirs); for i in 0..dirs { "
+                "path.push_str(&oid[i * 2..i * 2 + 2]); path.push('/'); } path.push_str(&oid[dirs * 2..]); "
+                "paths.push(path); dirs += 1; } paths")
+        if want not in dp:
+            raise L.GenError("deep_fanout_note_paths_for_object: unrecognised shape")
     fl = _norm(L.find_fn(src, "flat_note_pathspec_for_commit", rel))
     fo = _norm(L.find_fn(src, "fanout_note_pathspec_for_commit", rel))
     if 'format!("refs/notes/ai:{}", commit_sha)' not in fl or 'format!("refs/notes/ai:{}", notes_path_for_object(commit_sha))' not in fo:
@@ -122,7 +150,15 @@ def generate(L):
         raise L.GenError("try_remap_base_commit_sha_field: whitespace skips changed")
     wsb = [L.unescape(x)[0] for x in re.findall(r"b'((?:[^'\\]|\\.)+)'", ws[0])]
     n = _norm(rm)
-    if "note_content.find(field)?" not in n or "bytes[pos] != b':'" not in n or "bytes[pos] != b'\"'" not in n \
+    if "let field_pos = note_content.find(field)?;" in n:
+        remap_after_divider = False
+    elif ('let metadata_start = if note_content.starts_with("---\\n") { "---\\n".len() } else { '
+          'note_content.find("\\n---\\n")? + "\\n---\\n".len() }; '
+          'let field_pos = metadata_start + note_content[metadata_start..].find(field)?;') in n:
+        remap_after_divider = True
+    else:
+        raise L.GenError("try_remap_base_commit_sha_field: where the field is searched changed")
+    if "bytes[pos] != b':'" not in n or "bytes[pos] != b'\"'" not in n \
             or "b'\\\\' => { pos += 2; }" not in n:
         raise L.GenError("try_remap_base_commit_sha_field: scan shape changed")
 
@@ -166,6 +202,10 @@ def generate(L):
     out.append(f"Definition gn_merge_skips_absent : bool := {L.coq_bool(merge_skips_absent)}.")
     out.append("(* squash / CI rewrite: 0 committed files of the merge commit, 1 merge favoring the target, 2 to_authorship_log, 3 notes_add *)")
     out.append("Definition gn_squash_pipeline : list N := [0; 1; 2; 3].")
+    out.append("(* writers delete and the reader probes every fan-out form (<aa>/<bb>/<rest>, ...), not only <sha> and <aa>/<rest> *)")
+    out.append(f"Definition gn_all_layouts : bool := {L.coq_bool(all_layouts)}.")
+    out.append("(* the base_commit_sha field is searched below the divider line only *)")
+    out.append(f"Definition gn_remap_after_divider : bool := {L.coq_bool(remap_after_divider)}.")
     out.append(f"Definition gn_fanout_split : nat := {split}%nat.")
     out.append("(* per entry of a batch write: 0 = D flat (only when flat <> fanout), 1 = D fanout, 2 = M fanout *)")
     out.append("Definition gn_batch_cmds : list N := [0; 1; 2].")
